@@ -76,6 +76,11 @@ class World:
             for s in prog["sources"]:
                 if s["t"] == "arg":
                     env.append(self.spox.argument(self.Tensor(np.dtype(s["dtype"]), tuple(s["shape"]))))
+                elif s["t"] == "argdef":
+                    # a model input WITH A DEFAULT (graph input backed by an initializer): still an input, its value is not a constant
+                    from spox._graph import arguments as _arguments
+                    arr = np.array(s["value"], dtype=s["dtype"]).reshape(s["shape"])
+                    env.append(_arguments(**{f"dflt{len(env)}": arr})[0])
                 else:
                     arr = np.array(s["value"], dtype=s["dtype"]).reshape(s["shape"])
                     env.append(self.op.const(arr) if s["t"] == "const" else self.F.initializer(arr))
@@ -276,7 +281,7 @@ def run_program(world, prog, backend, plan=None, reuse=None, strict=False, typin
 def built_models(world, prog, run_, out_idx):
     """Build the program with the Vars of ``run_``: inputs = all arguments, outputs = env[out_idx]."""
     ns = len(prog["sources"])
-    ins = {f"in{i}": run_["env"][i] for i, s in enumerate(prog["sources"]) if s["t"] == "arg"}
+    ins = {f"in{i}": run_["env"][i] for i, s in enumerate(prog["sources"]) if s["t"] in ("arg", "argdef")}
     outs = {f"out{i}": run_["env"][i] for i in out_idx}
     world.inj.arm(None)
     with warnings.catch_warnings():
@@ -319,6 +324,8 @@ def ort_run(world, model, feed):
 def gen_feed(rng, prog):
     feed = {}
     for i, s in enumerate(prog["sources"]):
+        if s["t"] == "argdef":
+            feed[f"in{i}"] = np.array(s["value"], dtype=s["dtype"]).reshape(s["shape"])     # fed with its default (shapes stay valid)
         if s["t"] == "arg":
             n = int(np.prod(s["shape"]))
             if s["dtype"] == L.F32:
